@@ -33,169 +33,271 @@ ASSUMPTIONS = ["config.NS_PORT is a non-negative int (checked by the extractor f
 TRUSTED = ["re.match / int() / str.isspace agree with the model's explicit string functions on the model domain "
            "(validated by the correspondence suites parse/int, not proved)"]
 
-GUARD_HOST_SRC = 'not self.host or self.host == "./u"'
-GUARD_TAGS_SRC = 'not any(self.object) or any("@" in m for m in self.object)'
 NS_PORTS = [9090, 9090, 9090, 0, 1, 65535, 12345]
+UNRESOLVED = "<unresolved>"
 
 
 # ----------------------------------------------------------------------------------------
-# A: extractor
+# A: extractor — facts are PROBED on the real classes (behaviour tables), not read off the syntax;
+#    only the two regular-expression patterns are taken as such (resolved through the real module).
 # ----------------------------------------------------------------------------------------
-def _norm(src):
-    return ast.unparse(ast.parse(src, mode="eval"))
-
-
 def _lean_str(s):
     return json.dumps(s, ensure_ascii=False)
 
 
-def _lean_list(l):
-    return "[" + ", ".join(_lean_str(x) for x in l) + "]"
+def _lean_text(s):
+    return "[" + ", ".join(str(ord(c)) for c in s) + "]"
 
 
-class _Guards(ast.NodeVisitor):
-    """tests of `if` statements that lead straight to a `raise`, in source order; `else: raise` as 'else'"""
+def _lean_opt_text(s):
+    return "none" if s is None else "(some %s)" % _lean_text(s)
 
-    def __init__(self):
-        self.out = []
 
-    def visit_If(self, node):
-        if node.body and isinstance(node.body[0], ast.Raise):
-            self.out.append(ast.unparse(node.test))
-        for n in node.body:
-            self.visit(n)
-        if node.orelse and isinstance(node.orelse[0], ast.Raise):
-            self.out.append("else")
-        for n in node.orelse:
-            self.visit(n)
+def _lean_uri(u):
+    """Lean term of type Pyro.Uri.Uri for the state of a real URI; raises if the state has a shape the model lacks"""
+    proto, obj, sock, host, port = u.__getstate__()
+    if proto == "PYROMETA":
+        if not isinstance(obj, (set, frozenset)) or not all(isinstance(t, str) for t in obj):
+            raise ValueError("PYROMETA object is %r" % (obj,))
+        kind = "Pyro.Uri.Kind.pyrometa [%s]" % ", ".join(_lean_text(t) for t in sorted(obj))
+    elif proto in ("PYRO", "PYRONAME") and isinstance(obj, str):
+        kind = "Pyro.Uri.Kind.%s %s" % (proto.lower(), _lean_text(obj))
+    else:
+        raise ValueError("state %r" % ((proto, obj),))
+    if sock is None and host is None and port is None:
+        loc = "Pyro.Uri.Loc.none"
+    elif isinstance(sock, str) and host is None and port is None:
+        loc = "Pyro.Uri.Loc.sock %s" % _lean_text(sock)
+    elif sock is None and isinstance(host, str) and type(port) is int:
+        loc = "Pyro.Uri.Loc.tcp %s (%d)" % (_lean_text(host), port)
+    else:
+        raise ValueError("location state %r" % ((sock, host, port),))
+    return "⟨%s, %s⟩" % (kind, loc)
 
-    def visit_ExceptHandler(self, node):
-        if node.body and isinstance(node.body[0], ast.Raise):
-            self.out.append("except " + (ast.unparse(node.type) if node.type else ""))
-        self.generic_visit(node)
+
+_ERR_TERM = {"invalid": "invalid", "protocol": "protocol", "location": "location", "brackets": "brackets",
+             "ipv6": "ipv6", "port": "port", "metadata": "metadata"}
+
+PARSE_PROBES = [
+    "PYRO:obj@localhost:55", "pyro:obj@h:1", "PyRoNaMe:x", "PYRONAME:x@h", "PYRONAME:x@h:", "PYRONAME:x@h:77",
+    "pyrometa:b,a,,b@[::1]:007\n", "PYROMETA:a", "PYROMETA:,a", "PYRO:o@./u:/tmp/s", "PYRO:o@./u:", "PYRO:o@./u:x:y",
+    "PYRONAME:n@./u:s@t", "PYRO:a@[::1]:55xyz", "PYRO:a@[abc]:5", "PYRO:a@[::1]", "PYRONAME:a@[::1]", "PYRONAME:a@[::1]:-5",
+    "PYRO:a@[fe80::1%25]:1", "PYRO:a@[[::1]]:5", "PYRO:a@[xyz]:5", "PYRO:a@[]:5", "PYRO:a@[::1:5", "PYRO:a@h: +5_0 ",
+    "PYRO:a@h:1__0", "PYRO:a@h:_1", "PYRO:a@h:-5", "PYRO:a@h:\x1c5", "PYRO:a@h:\t5\r", "PYRO:a@h:1:2", "PYRO:a@h:0x10",
+    "PYRO:a@h", "PYRO:a@h:", "PYRO:a", "PYROX:x@h:1", "PYRONAMES:x", "PYR:x", "PYRO x", "PYRO:", "PYRO:a b@h:1",
+    "PYRO:a\x1cb@h:1", " PYRO:a@h:1", "PYRO:a@h:1\n", "PYRO:a@h:1\n\n", "PYRONAME:a@", "PYRONAME:a@\n", "PYRONAME:@x@h:1",
+    "PYRO:a@b@h:1", "PYRO:a@h\r:1", "PYRO:a@ h :5", "PYRONAME:./u:@5%A", "PYRONAME:a@@",
+    "PYRO:o@:55", "PYRONAME:o@:9090", "pyroname:c@:", "PYRONAME:x@./u", "PYROMETA:,", "PYROMETA:,@h:1", "PYROMETA:b,a@",
+    "PYROMETA:@x,b", "PYROMETA:@", "PYROMETA:a,,", "PYROMETA:b,a@h",
+]
+
+EQ_PROBES = [
+    ("PYRO:a@h:5", "pyro:a@h: 5 "), ("PYRO:a@h:5", "PYRO:a@h:6"), ("PYRO:a@h:5", "PYRO:a@g:5"), ("PYRO:a@h:5", "PYRO:b@h:5"),
+    ("PYRONAME:a@h:5", "PYRO:a@h:5"), ("PYROMETA:a,b", "PYROMETA:b,a,a"), ("PYROMETA:a,b", "PYROMETA:a"),
+    ("PYROMETA:a,b@h:1", "PYROMETA:b,a@h:2"), ("PYRO:a@./u:s", "PYRO:a@./u:t"), ("PYRO:a@./u:s", "PYRO:a@./u:s\n"),
+    ("PYRONAME:a", "PYRONAME:a@h"), ("PYRONAME:a@h", "PYRONAME:a@h:%(nsport)d"), ("PYRO:a@[::1]:5", "PYRO:a@[::1]:5garbage"),
+    ("PYRO:a@[abc]:5", "PYRO:a@abc:5"), ("PYRONAME:a", "PYROMETA:a"),
+]
+
+
+def _resolve_ipv6_regex(core):
+    """pattern/flags of the regex `URI._parseLocation` (or a private helper it calls) matches a bracketed location
+    against: a literal, or whatever object the name it uses denotes in the real module. (UNRESOLVED, 0) if unclear."""
+    import inspect
+    import re
+    import textwrap
+    main = core.URI.uriRegEx.pattern
+    found = []
+
+    def value_of(node):
+        if isinstance(node, ast.Constant) and isinstance(node.value, str):
+            return node.value
+        if isinstance(node, ast.Name):
+            return getattr(core, node.id, None)
+        if isinstance(node, ast.Attribute) and isinstance(node.value, ast.Name):
+            if node.value.id in ("self", "cls", "URI"):
+                return getattr(core.URI, node.attr, None)
+            mod = getattr(core, node.value.id, None)
+            return getattr(mod, node.attr, None) if mod is not None else None
+        return None
+
+    def scan(fn, depth):
+        try:
+            tree = ast.parse(textwrap.dedent(inspect.getsource(fn)))
+        except (OSError, TypeError, SyntaxError):
+            return
+        for node in ast.walk(tree):
+            if not isinstance(node, ast.Call):
+                continue
+            if isinstance(node.func, ast.Name):
+                helper = getattr(core, node.func.id, None)
+                if depth < 2 and inspect.isfunction(helper) and helper.__module__ == core.__name__ \
+                        and node.func.id.startswith("_"):
+                    scan(helper, depth + 1)
+                continue
+            if not isinstance(node.func, ast.Attribute):
+                continue
+            f = node.func
+            if f.attr in ("match", "fullmatch", "search", "compile"):
+                if isinstance(f.value, ast.Name) and f.value.id == "re":
+                    v = value_of(node.args[0]) if node.args else None
+                    flags = 32
+                    if len(node.args) > 2 or node.keywords or (f.attr == "compile" and len(node.args) > 1):
+                        flags = -1
+                else:
+                    v, flags = value_of(f.value), None
+                if isinstance(v, str):
+                    found.append((v, flags if flags is not None else 32))
+                elif isinstance(v, re.Pattern):
+                    found.append((v.pattern, int(v.flags)))
+            elif depth < 2 and isinstance(f.value, ast.Name) and f.value.id in ("self", "cls", "URI"):
+                helper = getattr(core.URI, f.attr, None)
+                if callable(helper) and f.attr.startswith("_") and not f.attr.startswith("__"):
+                    scan(helper, depth + 1)
+    scan(core.URI._parseLocation, 0)
+    pats = sorted({(p, f) for p, f in found if p != main})
+    if len(pats) == 1 and pats[0][1] >= 0:
+        return pats[0]
+    return UNRESOLVED, 0
+
+
+def _raises(URI, errors, s):
+    try:
+        URI(s)
+        return False
+    except errors.PyroError:
+        return True
+
+
+def _probe_parse(URI, errors, s):
+    """Lean tuple (input, expected parse result, expected str (ascending tags), expected location)"""
+    try:
+        u = URI(s)
+    except errors.PyroError as x:
+        k = err_kind(x)
+        if k not in _ERR_TERM:
+            raise RuntimeError("URI(%r) raises an unknown kind of PyroError: %s" % (s, x))
+        return "(%s, Except.error Pyro.Uri.Err.%s, [], none)" % (_lean_text(s), _ERR_TERM[k])
+    obj = u.object
+    text = str_in_order(URI, u, sorted(obj)) if isinstance(obj, (set, frozenset)) else str(u)
+    return "(%s, Except.ok %s, %s, %s)" % (_lean_text(s), _lean_uri(u), _lean_text(text), _lean_opt_text(u.location))
+
+
+def _proxy_probes(URI, errors):
+    """histories run on a real Proxy through its own state pair / copy.copy; Lean terms for the model's proxyRun"""
+    import copy
+    from Pyro5 import client
+    hist = [
+        ("PYRONAME:svc", ["s", ("u", "PYRO:obj@localhost:4444"), "s", "c"]),
+        ("PYROMETA:b,a,tag@ns:9091", ["c", "s", ("u", "PYRO:o@[::1]:5"), "c", "s", ("u", "PYROMETA:x,y"), "s"]),
+        ("PYRO:o@./u:sock", ["s", "c", ("u", "PYRONAME:n@h"), "c"]),
+    ]
+    out = []
+    is_text = True
+    for init, ops in hist:
+        p = client.Proxy(init)
+        terms, delivered = [], []
+        for op in ops:
+            if isinstance(op, tuple):
+                new = URI(op[1])
+                p._pyroUri = new                      # what bind does with the resolved uri
+                terms.append("Pyro.Uri.ProxyOp.setUri %s" % _lean_uri(new))
+                continue
+            terms.append("Pyro.Uri.ProxyOp.send" if op == "s" else "Pyro.Uri.ProxyOp.copy")
+            try:
+                if op == "s":
+                    state = p.__getstate__()
+                    if not (type(state[0]) is str and state[0] == str(p._pyroUri)):
+                        is_text = False
+                    q = client.Proxy.__new__(client.Proxy)
+                    q.__setstate__(state)
+                else:
+                    q = copy.copy(p)
+                delivered.append("Except.ok %s" % _lean_uri(q._pyroUri))
+            except (errors.PyroError, ValueError, TypeError, AttributeError):
+                delivered.append("Except.error Pyro.Uri.Err.metadata")   # a marker the model never produces here
+        out.append("(%s, [%s], [%s])" % (_lean_uri(URI(init)), ", ".join(terms), ", ".join(delivered)))
+    return out, is_text
 
 
 def _facts():
     common.repo_on_path()
-    from Pyro5 import core, config
-    src = open(core.__file__).read()
-    tree = ast.parse(src)
-    cls = [n for n in tree.body if isinstance(n, ast.ClassDef) and n.name == "URI"]
-    if not cls:
-        raise RuntimeError("class URI not found in core.py")
-    fns = {n.name: n for n in cls[0].body if isinstance(n, ast.FunctionDef)}
-    for need in ("__init__", "_parseLocation", "location", "__str__", "__getstate__", "__eq__", "__hash__"):
-        if need not in fns:
-            raise RuntimeError("URI.%s not found" % need)
-
-    def guards(fn):
-        v = _Guards()
-        for st in fn.body:
-            v.visit(st)
-        return v.out
-    init_guards = guards(fns["__init__"])
-    loc_guards = guards(fns["_parseLocation"])
-    rx = core.URI.uriRegEx
-    v6 = []
-    prefixes = []
-    for node in ast.walk(fns["_parseLocation"]):
-        if isinstance(node, ast.Call) and isinstance(node.func, ast.Attribute):
-            if node.func.attr == "match" and getattr(node.func.value, "id", None) == "re":
-                if node.args and isinstance(node.args[0], ast.Constant) and isinstance(node.args[0].value, str):
-                    v6.append(node.args[0].value)
-                    if len(node.args) > 2 or node.keywords:
-                        raise RuntimeError("re.match in _parseLocation has flags")
-            if node.func.attr in ("startswith", "partition") and node.args and isinstance(node.args[0], ast.Constant):
-                prefixes.append("%s %s" % (node.func.attr, node.args[0].value))
-    if len(v6) != 1:
-        raise RuntimeError("expected one re.match literal in _parseLocation, found %r" % v6)
-    ret = [n for n in ast.walk(fns["__getstate__"]) if isinstance(n, ast.Return)]
-    eqret = [n for n in ast.walk(fns["__eq__"]) if isinstance(n, ast.Return)]
-    hret = [n for n in ast.walk(fns["__hash__"]) if isinstance(n, ast.Return)]
-    if len(ret) != 1 or len(hret) != 1 or not eqret:
-        raise RuntimeError("unexpected shape of __getstate__/__eq__/__hash__")
-    pf = _proxy_facts()
+    from Pyro5 import core, errors, config
+    URI = core.URI
+    rx = getattr(URI, "uriRegEx", None)
+    if rx is None or not hasattr(rx, "pattern"):
+        raise RuntimeError("URI.uriRegEx is not a compiled pattern")
     nsport = config.NS_PORT
     if type(nsport) is not int or nsport < 0:
         raise RuntimeError("config.NS_PORT default is not a non-negative int: %r" % (nsport,))
+    v6, v6flags = _resolve_ipv6_regex(core)
+    parse = [_probe_parse(URI, errors, s) for s in PARSE_PROBES]
+    eqs, hashes_agree = [], True
+    for a, b in EQ_PROBES:
+        b = b % {"nsport": nsport} if "%(" in b else b
+        ua, ub = URI(a), URI(b)
+        eq = (ua == ub)
+        if (ua != ub) == eq or (ub == ua) != eq or ua == a or not (ua == URI(ua)):
+            hashes_agree = False         # == / != inconsistent: recorded through the same flag (obligation demands true)
+        if eq:
+            try:
+                if hash(ua) != hash(ub):
+                    hashes_agree = False
+            except TypeError:
+                pass
+        eqs.append("(%s, %s, %s)" % (_lean_text(a), _lean_text(b), "true" if eq else "false"))
+    hashable = []
+    for s in ("PYRO:a@h:5", "PYRONAME:a", "PYRO:a@./u:s", "PYROMETA:a,b", "PYROMETA:a@h:1"):
+        try:
+            hash(URI(s))
+            h = True
+        except TypeError:
+            h = False
+        hashable.append("(%s, %s)" % (_lean_text(s), "true" if h else "false"))
+    proxy, is_text = _proxy_probes(URI, errors)
     return {
         "path": os.path.relpath(core.__file__, common.REPO),
-        "regex": rx.pattern, "flags": int(rx.flags), "v6": v6[0],
-        "init_guards": init_guards, "loc_guards": loc_guards, "calls": prefixes,
-        "getstate": ast.unparse(ret[0].value), "eq": [ast.unparse(r.value) for r in eqret],
-        "hash": ast.unparse(hret[0].value), "nsport": nsport,
-        "proxy": pf,
-        "guard_host": _norm(GUARD_HOST_SRC) in loc_guards,
-        "guard_tags": _norm(GUARD_TAGS_SRC) in init_guards,
+        "regex": rx.pattern, "flags": int(rx.flags), "v6": v6, "v6flags": v6flags, "nsport": nsport,
+        "parse": parse, "eq": eqs, "hashable": hashable, "hashes_agree": hashes_agree,
+        "proxy": proxy, "proxy_text": is_text,
+        # the two parse-time guards: present iff the behaviour is (both witnesses of each are refused)
+        "guard_host": _raises(URI, errors, "PYRO:o@:55") and _raises(URI, errors, "PYRONAME:x@./u"),
+        "guard_tags": _raises(URI, errors, "PYROMETA:,") and _raises(URI, errors, "PYROMETA:b,a@"),
     }
 
 
-def _proxy_facts():
-    """how the proxy state path carries the uri (client.py): facts behind C19_transport / C19_proxy_history"""
-    from Pyro5 import client
-    tree = ast.parse(open(client.__file__).read())
-    cls = [n for n in tree.body if isinstance(n, ast.ClassDef) and n.name == "Proxy"]
-    if not cls:
-        raise RuntimeError("class Proxy not found in client.py")
-    fns = {n.name: n for n in cls[0].body if isinstance(n, ast.FunctionDef)}
-    for need in ("__getstate__", "__setstate__", "__copy__"):
-        if need not in fns:
-            raise RuntimeError("Proxy.%s not found" % need)
-    rets = [n for n in ast.walk(fns["__getstate__"]) if isinstance(n, ast.Return)]
-    if len(rets) != 1 or not isinstance(rets[0].value, ast.Tuple) or not rets[0].value.elts:
-        raise RuntimeError("Proxy.__getstate__ does not return one tuple")
-    head = ast.unparse(rets[0].value.elts[0])
-    getstate_stmts = len(fns["__getstate__"].body)
-    writers = []        # "method attr = value" for every assignment to a self attribute whose name mentions the uri
-    for name, fn in fns.items():
-        for n in ast.walk(fn):
-            targets = []
-            if isinstance(n, ast.Assign):
-                for t in n.targets:
-                    targets += t.elts if isinstance(t, ast.Tuple) else [t]
-                val = ast.unparse(n.value)
-            elif isinstance(n, (ast.AugAssign, ast.AnnAssign)) and n.value is not None:
-                targets, val = [n.target], ast.unparse(n.value)
-            for t in targets:
-                if isinstance(t, ast.Attribute) and isinstance(t.value, ast.Name) and t.value.id == "self" \
-                        and "uri" in t.attr.lower():
-                    writers.append("%s %s = %s" % (name, t.attr, val))
-    copy_body = [ast.unparse(st) for st in fns["__copy__"].body]
-    return {"head": head, "getstate_stmts": getstate_stmts, "writers": sorted(writers),
-            "copy_uses_state": "p.__setstate__(self.__getstate__())" in copy_body}
-
-
 def extract():
-    """source facts -> Lean (PyroModel/Gen/C19.lean)"""
+    """facts probed on the real classes -> Lean (PyroModel/Gen/C19.lean)"""
     f = _facts()
     b = lambda x: "true" if x else "false"
-    return f"""-- GENERATED by harness/props/c19.py from {f['path']} — do not edit
+    lst = lambda items: "[\n  " + ",\n  ".join(items) + "]"
+    return f"""-- GENERATED by harness/props/c19.py from {f['path']} / client.py (probed on the imported classes) — do not edit
+import PyroModel.Uri
 namespace Pyro.Gen.C19
+open Pyro.Uri
 /-- URI.uriRegEx.pattern / .flags (32 = re.UNICODE only, i.e. no flags given) -/
 def uriRegex : String := {_lean_str(f['regex'])}
 def uriRegexFlags : Nat := {f['flags']}
-/-- the literal pattern of the only re.match call in URI._parseLocation (no flags) -/
+/-- pattern / flags of the regex URI._parseLocation uses for a bracketed location (literal, or the object its name
+    denotes in the real module); "{UNRESOLVED}" when the extractor cannot tell — then only the probes below speak -/
 def ipv6Regex : String := {_lean_str(f['v6'])}
-/-- tests of the `if`s of URI.__init__ / URI._parseLocation whose body starts with `raise`, in source order -/
-def initGuards : List String := {_lean_list(f['init_guards'])}
-def locGuards : List String := {_lean_list(f['loc_guards'])}
-/-- str.startswith / str.partition calls with a literal argument in URI._parseLocation, ast.walk order -/
-def locCalls : List String := {_lean_list(f['calls'])}
-def getstateTuple : String := {_lean_str(f['getstate'])}
-def eqReturns : List String := {_lean_list(f['eq'])}
-def hashReturn : String := {_lean_str(f['hash'])}
+def ipv6RegexFlags : Nat := {f['v6flags']}
 def nsPortDefault : Nat := {f['nsport']}
-/-- client.py, class Proxy: first element of the tuple returned by __getstate__ ; number of statements of __getstate__ -/
-def proxyStateHead : String := {_lean_str(f['proxy']['head'])}
-def proxyGetstateStmts : Nat := {f['proxy']['getstate_stmts']}
-/-- every assignment "method attr = value" to a self attribute of Proxy whose name mentions the uri, sorted -/
-def proxyUriWriters : List String := {_lean_list(f['proxy']['writers'])}
-/-- does Proxy.__copy__ go through p.__setstate__(self.__getstate__()) ? -/
-def proxyCopyUsesState : Bool := {b(f['proxy']['copy_uses_state'])}
-/-- is the empty / "./u" host rejected after location.partition(":") ?  (fixes/C19-reparse.patch) -/
+/-- are an empty host and the host "./u" refused (URI("PYRO:o@:55"), URI("PYRONAME:x@./u") raise PyroError) ? -/
 def guardHost : Bool := {b(f['guard_host'])}
-/-- are all-empty tag sets and tags containing "@" rejected for PYROMETA ?  (fixes/C19-reparse.patch) -/
+/-- are the tag set {{""}} and tags holding "@" refused (URI("PYROMETA:,"), URI("PYROMETA:b,a@") raise PyroError) ? -/
 def guardTags : Bool := {b(f['guard_tags'])}
+/-- (input, what URI(input) did with NS_PORT = nsPortDefault, str(uri) with ascending tags, uri.location) -/
+def parseProbes : List (Text × Except Err Uri × Text × Option Text) := {lst(f['parse'])}
+/-- (a, b, URI(a) == URI(b)) -/
+def eqProbes : List (Text × Text × Bool) := {lst(f['eq'])}
+/-- (a, is hash(URI(a)) defined) ; did every equal pair above hash alike, with ==/!= consistent both ways -/
+def hashProbes : List (Text × Bool) := {lst(f['hashable'])}
+def equalHashesAgree : Bool := {b(f['hashes_agree'])}
+/-- histories on a real Proxy: (initial uri, ops, uri of each proxy delivered by __getstate__/__setstate__ or copy.copy) -/
+def proxyProbes : List (Uri × List ProxyOp × List (Except Err Uri)) := {lst(f['proxy'])}
+/-- was Proxy.__getstate__()[0] always a str equal to str(proxy._pyroUri) at the time of the call ? -/
+def proxyStateIsText : Bool := {b(f['proxy_text'])}
 end Pyro.Gen.C19
 """
 
